@@ -155,6 +155,9 @@ ASSUMPTIONS = [
     "Selector is modelled as a class test only (ScaleTarget.selectHist/selectGraph); string / callable / composite "
     "selectors in scale_to are not exercised; the contexts written by HistToGraph (value, variable: C14) and by "
     "graph._update_context are not compared; context.histogram written by ToCSV is",
+    "the string form of field_names (splitNames, the regex [^,\\s]+) has no theorem of its own: validated by the "
+    "correspondence only (separators ',', ', ', ' ', tab); 'valid naming' in graph_valid_naming is stated through "
+    "errMatches, which errMatches_iff proves equivalent to the independent predicate ErrorFieldOf for error fields",
     "relational vocabulary of the scale_to theorems (ItemDone, AllDone, ItemFails, LoopPost) consists of propositions "
     "over the model function structScale and equality only; it is not executed (nothing to validate beyond structScale)",
     "repr() of floats in the CSV of graphs is not modelled (rows of numbers only); '{:f}' of histograms is (fmtF, "
@@ -198,7 +201,7 @@ RULE = ("cases per op over histograms of every shape 1..4 (1-dim), 1..3 x 1..3 (
         "(the HistToGraph element: make_value None / Variable / not a Variable, context.histogram.to_graph, "
         "non-histograms), gchain (scale / scale() / + / rows() sequences on ONE graph, given or made by hist_to_graph), GroupScale on a non-sequence, graph + non-graph. Enumerated first: every shape x every "
         "histogram operation, every valid naming, the prefix/extension edges of add; then a seeded random mixture of all "
-        "operations (5.5 k quick / 200 k thorough), produced lazily. With every case the specification vocabulary of the "
+        "operations (5.5 k quick / 120 k thorough), produced lazily. With every case the specification vocabulary of the "
         "theorems (Model/C12Spec.lean: wfB, validB, inRangeB, validRangesB, selAll/rangePred, cellEdgesRef, cellRow, "
         "pointOf, rowsFor, bins1d/2d, errorFieldOfB, edgesNotAbove; NArr.map/values/zipWith/get?/indexProd) is executed "
         "by the driver and compared with Python reference computations. Non-trivial: the structure has at least two cells/points and "
@@ -1112,6 +1115,9 @@ def graph_add_case(rng):
                 return graph_add_case(rng)      # cannot keep the asserted lengths and a valid graph
     if rng.random() < 0.08:
         b = rng.choice(["other", {"hist": gen_hist(rng, (2,))}])
+    elif rng.random() < 0.05:
+        # different numbers of coordinates: an assert of graph.__add__ (the model declines: 'unmodelled')
+        b = graph_case(rng, COORD_NAMES[:dim % 3 + 1], npts=n, form="t")["g"]
     return {"op": "graph_add", "a": a, "b": b}
 
 
@@ -1333,7 +1339,7 @@ def gen_cases(ctx):
             yield graph_case(rng, names, form=form)
     # the random mixture
     makers = [m for w, m in MIXTURE for _ in range(w)]
-    for _ in range(200000 if thorough else 5500):
+    for _ in range(120000 if thorough else 5500):
         yield rng.choice(makers)(rng)
 
 
@@ -1921,6 +1927,8 @@ def _spec_requests(case):
     if op == "csv_text" and case.get("data") != "other" and well_shaped(case["h"]):
         vals = [x for ax in axes_of(case["h"]) for x in ax] + list(flat_nested(case["h"]["bins"]))
         return [{"op": "fmt", "xs": vals}]
+    if op == "scale_get":
+        return [{"op": "integral", "bins": case["h"]["bins"], "edges": case["h"]["edges"]}]
     if op == "iter_coord":
         co = case["coord"]
         prs = [co["single"]] if "single" in co else co["many"]
@@ -2164,6 +2172,8 @@ def _compare_spec(case, sp):
         zipped = map_nested(lambda _: next(cnt)[1], a["bins"])
         return (diff("NArr.zipWith", map_nested(_nq, sp["zip"]), zipped) or
                 diff("NArr.get?", [[i, _nq(v)] for i, v in sp["get"]], want))
+    if op == "scale_get":
+        return diff("integral", _nq(sp.get("r", sp)), enc(ref_integral(case["h"])))
     if op == "csv_text":
         vals = [q(x) for ax in axes_of(case["h"]) for x in ax] + [q(v) for v in flat_nested(case["h"]["bins"])]
         want = ["{:f}".format(float(v)) for v in vals]
@@ -2858,6 +2868,8 @@ def oracle(case, res):
 
     if op == "graph_add":
         a, b = case["a"], case["b"]
+        if ref_parse_names(list(names_tuple(a["names"])))[0] != ref_parse_names(list(names_tuple(b["names"])))[0]:
+            return None          # graphs of different dimensions: an assert of the code, outside the statement
         if not res["same"]:
             return "graph addition modified an operand"
         na, nb_ = names_tuple(a["names"]), names_tuple(b["names"])
